@@ -1762,6 +1762,9 @@ func GetRouteDistinguisher(data []byte) RouteDistinguisherInterface {
 			Type: typ,
 		},
 	}
+	if len(data) >= 8 {
+		rd.Value = bytes.Clone(data[2:8])
+	}
 	return rd
 }
 
